@@ -85,9 +85,16 @@ def run_config(cfg, seed, cache):
                 res["skipped"] = "count data would be all zero"
                 return res
     spread = {"Normal": 0.5, "Gamma": 3.0, "NegBinom": 2.0}.get(cls)
-    lo_f, hi_f = (0.7, 1.5) if cfg["box"] == "tight" else (0.3, 3.0)
-    lb = [lo_f * g for g in gen_free]
-    ub = [hi_f * g for g in gen_free]
+    int_ub = False
+    if cfg["box"] == "excluding":
+        # the generating values lie below the box; upper bounds are whole numbers handed over as integers
+        lb = [1.25 * g for g in gen_free]
+        ub = [float(int(math.ceil(2.5 * g)) + 1) for g in gen_free]
+        int_ub = True
+    else:
+        lo_f, hi_f = (0.7, 1.5) if cfg["box"] == "tight" else (0.3, 3.0)
+        lb = [lo_f * g for g in gen_free]
+        ub = [hi_f * g for g in gen_free]
     if cfg["start"] == "generating":
         start = list(gen_free)
     elif cfg["start"] == "lower":
@@ -97,7 +104,12 @@ def run_config(cfg, seed, cache):
     else:
         start = [l + rng.uniform(0.15, 0.85) * (u - l) for l, u in zip(lb, ub)]
     yy = y if y.shape[1] > 1 else y[:, 0]
-    args = (list(start), m, x0, t0, times, yy, obs if len(obs) > 1 else obs[0])
+    x0_arg = x0
+    x0_buffer = None
+    if rng.random() < 0.35:
+        x0_buffer = np.array(x0, float)         # the caller's own array, re-used after the loss object was built
+        x0_arg = x0_buffer
+    args = (list(start), m, x0_arg, t0, times, yy, obs if len(obs) > 1 else obs[0])
     kw = dict(target_param=tp)
     try:
         if cls == "Square":
@@ -112,7 +124,10 @@ def run_config(cfg, seed, cache):
             obj = NegBinomLoss(*args, k=spread, **kw)
         form = rng.choice(["list", "array"])
         xs = list(start) if form == "list" else np.array(start)
-        out = obj.fit(xs, lb=(list(lb) if rng.random() < 0.5 else np.array(lb)), ub=(list(ub) if rng.random() < 0.5 else np.array(ub)))
+        if x0_buffer is not None:
+            x0_buffer *= 1.6
+        ub_arg = [int(u) for u in ub] if int_ub else (list(ub) if rng.random() < 0.5 else np.array(ub))
+        out = obj.fit(xs, lb=(list(lb) if rng.random() < 0.5 else np.array(lb)), ub=ub_arg)
         result = [float(v) for v in np.atleast_1d(out)]
     except Exception as ex:
         res["raised"] = "".join(traceback.format_exception_only(type(ex), ex))[:300]
